@@ -178,6 +178,18 @@ module Oracles = struct
        | _ -> ())
     end;
     (* ---- oracles that hold for every sequence *)
+    (* ttl / min_commit_ts of a lock survive the owner's later requests (except its own pessimistic re-lock) *)
+    List.iter (fun k -> chk "lock_fields_monotone" (lock_mono_ok before after c k)
+                  ("ttl or min_commit_ts of the lock on key " ^ hx k ^ " decreased: " ^ ks_s (get_ks before k) ^ " -> " ^ ks_s (get_ks after k))) key_ids;
+    (match c with
+     | Commit (ks, s, cts) when commit_must_be_refused before ks s cts ->
+       chk "commit_below_min_commit_refused" (unchanged && iresp <> "ok") ("commit below the lock's min_commit_ts answered " ^ iresp)
+     | CheckTxnStatus (k, s, _, _, _, _) when (let l = String.length iresp in l > 7 && String.sub iresp 0 7 = "ST(0,0," &&
+                                               (let a = String.sub iresp 7 (l - 8) in a = "ttlrb" || a = "ttlprb" || a = "lnerb")) ->
+       (* the check reported the transaction rolled back: its lock on that key is gone *)
+       chk "status_rolled_back_unlocked" (match lock_of after k with Some l -> l.l_start <> s || String.sub iresp 7 5 = "lnerb" | None -> true)
+         ("check-txn-status answered " ^ iresp ^ " but the lock of the transaction is still on the key")
+     | _ -> ());
     let contains hay needle = (try ignore (Str.search_forward (Str.regexp_string needle) hay 0); true with Not_found -> false) in
     let own_lock k s = (match lock_of before k with Some l when l.l_start = s -> Some l | _ -> None) in
     (match c with
